@@ -38,7 +38,7 @@ def plan(tier):
 
 
 def n_programs(tier):
-    return 400 if tier == 'thorough' else 50
+    return 2000 if tier == 'thorough' else 50
 
 
 OPS = ['map', 'map', 'starmap', 'filter', 'accumulate', 'accumulate', 'partition', 'partition_unique',
